@@ -111,7 +111,9 @@ class C15(Prop):
                  'TaskManager.wait_tasks/PilotManager.wait_pilots under a virtual clock')
     rule = ('corpus; exhaustive: requested sets (none/empty/one/several) x trajectories of length <= 3 (quick) or '
             '<= 4 (thorough) over 6 representative states x timeouts {None,0,1,3} for Task.wait and Pilot.wait, and '
-            'pairs of trajectories of length <= 2 x 3 requests x 3 uid forms for the manager calls; random '
+            'pairs of trajectories of length <= 2 x 3 requests x 3 uid forms for the manager calls; staggered sets of 2-3 '
+            'entities that pass through the requested transient state at different ticks (delays x dwell x endings x '
+            'every transient request); random '
             'mostly-monotone trajectories (stalls, gaps, wrong final state, never-final) for all four calls with '
             'uid forms None/[]/one/list/unknown, termination ticks, clock offsets; non-trivial = the call polls at '
             'least once (returns at tick >= 1 or spins) and the awaited entities change state at least once')
@@ -122,7 +124,10 @@ class C15(Prop):
         'entity along its trajectory; 1 tick = 0.1 s), `_terminate` replaced by a clock-driven flag; result '
         'compared inside Coq by vm_compute with the model',
         'modelled, not verified: reporter/log calls, locks; a state that is visible for less than one polling '
-        'interval (0.1 s) is outside the statement',
+        'interval (0.1 s) is outside the statement; clause `timely` = (all awaited entities show a requested/final '
+        'state at ticks k and k+1 => returned by k+1) and (every awaited entity HAS shown a requested/final state '
+        'at some tick p0 <= j <= k, each at its own tick => returned by k+1; p0 = 1 for wait_tasks, which sleeps '
+        'before its first look, else 0)',
     ]
     assumptions = ['requested states are names of states.py for the entity kind (others raise KeyError in '
                    'wait_tasks and are outside the model)',
@@ -201,6 +206,30 @@ class C15(Prop):
                         for uids in (None, 1, [2, 1]):
                             yield dict(fn=fn, ents=[[1, a], [2, b]], uids=uids, req=req,
                                        timeout=None, term=None, t0=1000)
+        # entities that pass THROUGH a requested transient state at different
+        # ticks: entity i starts to move after delay d_i and stays `dwell` ticks
+        # in every state; by the time the last one shows the requested state
+        # the others have moved on (or have become final)
+        for fn, kind in (('wait_tasks', 'T'), ('wait_pilots', 'P')):
+            chain = ['NEW', 'TMGR_SCHEDULING', 'AGENT_EXECUTING', 'TMGR_STAGING_OUTPUT'] if kind == 'T' else PSTATES
+            ends = [[], ['DONE'], ['FAILED']]
+            delays = [(0, 1), (0, 2), (2, 0), (0, 3), (1, 0, 2)] if tier == 'quick' else \
+                [d for n in (2, 3) for d in itertools.product(range(4), repeat=n) if len(set(d)) > 1]
+            for ds in delays:
+                for dwell in (1, 2):
+                    for ei, end in enumerate(ends):
+                        ents = []
+                        for i, d in enumerate(ds):
+                            tr = [chain[0]] * d
+                            for st in chain:
+                                tr.extend([st] * dwell)
+                            # the other entities may end differently
+                            ents.append([i + 1, tr + (end if i == 0 else ends[(ei + i) % 3])])
+                        reqs = chain[1:-1] + [[chain[1], chain[2]]] if tier == 'quick' else \
+                            chain[1:] + [[chain[1], chain[2]], [chain[2], 'CANCELED']]
+                        for req in reqs:
+                            for uids in ((None,) if tier == 'quick' else (None, [2, 1])):
+                                yield dict(fn=fn, ents=ents, uids=uids, req=req, timeout=None, term=None, t0=7)
         n = 900 if tier == 'quick' else 12000
         for _ in range(n):
             fn = rng.choice(FNS)
